@@ -74,6 +74,9 @@ def check_stdio(case: Dict[str, Any]) -> Outcome:
                 for a in range(0, len(blob), step):
                     proc.stdout.feed(blob[a : a + step])
                     await asyncio.sleep(0)
+                if case.get("eof"):
+                    # a one-shot server: it has answered everything and closes its output / exits at once
+                    proc.stdout.close()
                 await asyncio.gather(*tasks, return_exceptions=True)
 
     try:
@@ -82,7 +85,7 @@ def check_stdio(case: Dict[str, Any]) -> Outcome:
         out.fail("stdio-burst-harness-raised", f"{type(e).__name__}: {e}")
         return out
     out.nontrivial = k > 0 or order != sorted(order)
-    out.classes = ("stdio-burst", f"n:{n}", f"burst:{'0' if k == 0 else ('<=100' if k <= 100 else '>100')}")
+    out.classes = ("stdio-burst", f"n:{n}", f"burst:{'0' if k == 0 else ('<=100' if k <= 100 else '>100')}") + (("server-closes-output-after-answering",) if case.get("eof") else ())
     for i in range(n):
         kind, val = results.get(i, ("none", None))
         if kind == "return" and isinstance(val, dict) and val.get("for") == f"c{i}":
@@ -110,15 +113,17 @@ def check(case: Dict[str, Any]) -> Outcome:
     schedule: List[Tuple[float, Any]] = []
     seq: List[Tuple[float, int, str]] = []
     falsy: Dict[str, int] = case.get("falsy", {})  # caller -> which empty/falsy result its answer carries (valid results all)
+    phases: List[int] = case.get("phases", [])
     typed = set(case.get("typed", []))  # answers delivered as the specific envelope classes instead of the unified one
     for k, (t, i) in enumerate(answers):
         form = {"$form": "typed"} if i in typed else {}
+        ph = phases[k] if k < len(phases) else 0  # position among the events of that instant (see drive)
         if i in err_for:
-            schedule.append((t / 100.0, {"jsonrpc": "2.0", "id": f"c{i}", "error": {"code": -32000 - i, "message": f"for c{i}"}, **form}))
+            schedule.append((t / 100.0, {"jsonrpc": "2.0", "id": f"c{i}", "error": {"code": -32000 - i, "message": f"for c{i}"}, **form}, ph))
         elif str(i) in falsy:
-            schedule.append((t / 100.0, {"jsonrpc": "2.0", "id": f"c{i}", "result": FALSY[falsy[str(i)] % len(FALSY)], **form}))
+            schedule.append((t / 100.0, {"jsonrpc": "2.0", "id": f"c{i}", "result": FALSY[falsy[str(i)] % len(FALSY)], **form}, ph))
         else:
-            schedule.append((t / 100.0, {"jsonrpc": "2.0", "id": f"c{i}", "result": {"for": f"c{i}", "k": k}, **form}))
+            schedule.append((t / 100.0, {"jsonrpc": "2.0", "id": f"c{i}", "result": {"for": f"c{i}", "k": k}, **form}, ph))
         seq.append((t / 100.0, k, "a"))
     for j, t in enumerate(notifs):
         schedule.append((t / 100.0, {"jsonrpc": "2.0", "method": "notifications/message", "params": {"level": "info", "data": j}}))
@@ -261,6 +266,15 @@ def job_exhaustive(col: Collector, seed: int, tier: str, shard: int, nshards: in
                         for fk in range(len(FALSY)):
                             case = {"n": 2, "timeouts": [200, 200], "answers": [[inst[k], perm[k]] for k in range(2)], "notifs": [], "falsy": {str(who): fk}}
                             col.record(case, check(case))
+    # answers exactly on poll boundaries, at each position among the events of that instant
+    for perm in itertools.permutations(range(2)):
+        for inst in ((50, 50), (50, 100), (100, 50), (50, 60), (100, 100)):
+            for phs in itertools.product((0, -2, -4), repeat=2):
+                i += 1
+                if i % nshards != shard:
+                    continue
+                case = {"n": 2, "timeouts": [200, 200], "answers": [[inst[k], perm[k]] for k in range(2)], "notifs": [], "phases": list(phs)}
+                col.record(case, check(case))
     # staggered lifetimes: caller 2 joins at t=0.30 after an earlier caller may have completed
     for perm in itertools.permutations(range(3)):
         for inst in itertools.product([10, 20, 40, 60, 90], repeat=3):
@@ -287,6 +301,8 @@ def cases(draw):
     if draw(st.integers(0, 2)) == 0:
         case["typed"] = [i for i in range(n) if draw(st.booleans())]
     if draw(st.integers(0, 2)) == 0:
+        case["phases"] = [draw(st.sampled_from([0, 0, -1, -2, -4])) for _ in case["answers"]]
+    if draw(st.integers(0, 2)) == 0:
         # at most one caller per case gets an empty/falsy (but valid) result, so a mix-up stays visible
         case["falsy"] = {str(draw(st.integers(0, n - 1))): draw(st.integers(0, len(FALSY) - 1))}
     if draw(st.booleans()):
@@ -308,6 +324,9 @@ def job_stdio(col: Collector, seed: int, tier: str) -> None:
                 for reads in (1, 2, 7):
                     case = {"n": n, "burst": k, "order": list(order), "reads": reads}
                     col.record(case, check(case))
+                    if k <= 50:
+                        case = dict(case, eof=True)
+                        col.record(case, check(case))
     col.exhaustive_parts.append("over StdioClient: 2 and 3 callers x all answer orders x burst of {0,1,50,99,100,101,150,400} notifications ahead of the answers x {1,2,7} pipe reads")
 
 
